@@ -55,6 +55,7 @@ func (pr *progRunner) runGens(gens map[string]Gen, order []string) {
 	nw := harness.Workers()
 	harness.ParallelShards(nw, func(worker, shard int) {
 		w := &progWorker{impl: glrun.NewImpl(pr.opts, pr.extraI)}
+		w.impl.ShrinkRegistry = pr.opts.RegistryMaxSize > pr.opts.RegistrySize
 		defer w.impl.Close()
 		for _, name := range order {
 			if f := os.Getenv("VERIF_FAMILIES"); f != "" && !strings.Contains(","+f+",", ","+name+",") {
